@@ -1345,6 +1345,26 @@ func qrsubtwomodulusvec(p1, p2 []uint64, scalarMont uint64, p3 []uint64, modulus
 	}
 }
 
+// SCALEALL control: the accumulator is rescaled in the loop over the operand's components
+func accumulateScaled(r *ring.Ring, op0, opOut *rlwe.Ciphertext, c00 ring.Poly, r1 uint64) {
+	for i := range op0.Value {
+		if r1 != 1 {
+			r.MulScalar(opOut.Value[i], r1, opOut.Value[i])
+		}
+		r.MulCoeffsMontgomeryThenAdd(op0.Value[i], c00, opOut.Value[i])
+	}
+	opOut.Scale = opOut.Scale.Mul(rlwe.NewScale(r1))
+}
+
+// SIBRET control: one sibling keeps the receiver's modulus, the other the operand's
+type fxScale struct {
+	Value float64
+	Mod   *big.Int
+}
+
+func (s fxScale) Mul(s1 fxScale) fxScale { return fxScale{Value: s.Value * s1.Value, Mod: s1.Mod} }
+func (s fxScale) Div(s1 fxScale) fxScale { return fxScale{Value: s.Value / s1.Value, Mod: s.Mod} }
+
 `
 
 // control runs scan over the fixture and demands a violation whose key contains each of the wanted substrings.
